@@ -382,7 +382,7 @@ func (c *c04) genRandom(seed int64, base, n int) {
 			continue
 		}
 		r := rand.New(rand.NewSource(seed*1000003 + int64(i)))
-		cfg := &genCfg{maxDepth: 2 + r.Intn(2), maxElems: 1 + r.Intn(4), maxStr: 20}
+		cfg := &genCfg{maxDepth: 2 + r.Intn(2), maxElems: 1 + r.Intn(4), maxStr: 20, contKeys: r.Intn(5) == 0}
 		t := randRootType(r)
 		if fixedSize(t) > 0 || t == tSTR {
 			t = tSTRUCT
